@@ -2,8 +2,10 @@ package interp
 
 import (
 	"fmt"
+	"hash/fnv"
 	"os"
 	"runtime/debug"
+	"sort"
 	"strings"
 	"sync"
 	"time"
@@ -13,37 +15,76 @@ import (
 	"golang.org/x/tools/go/ssa"
 )
 
+// RunConfig describes one harness run (one entry of the registry).
+type RunConfig struct {
+	Fn         *ssa.Function
+	Name       string
+	Params     map[string]int
+	Explore    bool // explore all schedules (else deterministic seq scheduler)
+	PB         int  // preemption bound (-1 = unbounded), explore mode only
+	Race       bool // happens-before race detector
+	Workers    int
+	MaxPaths   int
+	Budget     time.Duration
+	SolverArgv []string
+	MaxSamples int
+	Seed       int64
+	Trace      bool
+	Unwind     int
+}
+
+// FuncInfo describes one SSA function that was entered.
+type FuncInfo struct {
+	Calls  int    `json:"calls"`
+	Instrs int    `json:"ssa_instrs"`
+	File   string `json:"file"`
+}
+
 // Explorer runs the DFS over decision prefixes with a pool of workers.
 type Explorer struct {
-	prog     *ssa.Program
-	fn       *ssa.Function
-	workers  int
-	Trace    bool
-	MaxPaths int
+	prog *ssa.Program
+	cfg  RunConfig
 
 	mu           sync.Mutex
 	cond         *sync.Cond
 	queue        [][]Dec
 	active       int
+	stopped      bool
 	Paths        int
 	Aborted      int
+	OKPaths      int
+	Nontrivial   int
 	Inconclusive []string
 	Violations   []Violation
 	Total        Stats
 	SolverTime   time.Duration
-	Funcs        map[string]int
+	Funcs        map[string]*FuncInfo
 	Cover        map[string]bool
+	Stubs        map[string]int
+	Samples      []*ReplayModel
+	sampleKeys   []uint64
+	Exhaustive   bool
+	Wall         time.Duration
+	SolverStats  struct{ Queries, Sat, Unsat, Unknown int }
 }
 
-func NewExplorer(prog *ssa.Program, fn *ssa.Function, workers int) *Explorer {
-	e := &Explorer{prog: prog, fn: fn, workers: workers, Funcs: map[string]int{}, Cover: map[string]bool{}}
+func NewExplorer(prog *ssa.Program, cfg RunConfig) *Explorer {
+	if cfg.Workers <= 0 {
+		cfg.Workers = 16
+	}
+	if cfg.MaxSamples == 0 {
+		cfg.MaxSamples = 6
+	}
+	e := &Explorer{prog: prog, cfg: cfg, Funcs: map[string]*FuncInfo{}, Cover: map[string]bool{}, Stubs: map[string]int{}}
 	e.cond = sync.NewCond(&e.mu)
 	return e
 }
 
 func (e *Explorer) push(p []Dec) {
 	e.mu.Lock()
-	e.queue = append(e.queue, p)
+	if !e.stopped {
+		e.queue = append(e.queue, p)
+	}
 	e.mu.Unlock()
 	e.cond.Signal()
 }
@@ -52,20 +93,13 @@ func (e *Explorer) pop() ([]Dec, bool) {
 	e.mu.Lock()
 	defer e.mu.Unlock()
 	for len(e.queue) == 0 {
-		if e.active == 0 {
+		if e.active == 0 || e.stopped {
 			e.cond.Broadcast()
 			return nil, false
 		}
 		e.cond.Wait()
 	}
-	if e.MaxPaths > 0 && e.Paths >= e.MaxPaths {
-		e.queue = nil
-		if e.active == 0 {
-			e.cond.Broadcast()
-			return nil, false
-		}
-	}
-	if len(e.queue) == 0 {
+	if e.stopped {
 		return nil, false
 	}
 	p := e.queue[len(e.queue)-1]
@@ -74,14 +108,34 @@ func (e *Explorer) pop() ([]Dec, bool) {
 	return p, true
 }
 
+func (e *Explorer) stop(why string) {
+	e.mu.Lock()
+	if !e.stopped {
+		e.stopped = true
+		e.Inconclusive = append(e.Inconclusive, fmt.Sprintf("search stopped (%s) with %d unexplored prefixes", why, len(e.queue)))
+		e.queue = nil
+	}
+	e.mu.Unlock()
+	e.cond.Broadcast()
+}
+
 func (e *Explorer) Run() {
+	t0 := time.Now()
 	e.queue = [][]Dec{nil}
 	var wg sync.WaitGroup
-	for w := 0; w < e.workers; w++ {
+	var deadline time.Time
+	if e.cfg.Budget > 0 {
+		deadline = t0.Add(e.cfg.Budget)
+	}
+	for w := 0; w < e.cfg.Workers; w++ {
 		wg.Add(1)
 		go func() {
 			defer wg.Done()
-			sol, err := smt.NewSolver(strings.Fields(os.Getenv("GOSX_SOLVER"))...)
+			argv := e.cfg.SolverArgv
+			if len(argv) == 0 {
+				argv = strings.Fields(os.Getenv("GOSX_SOLVER"))
+			}
+			sol, err := smt.NewSolver(argv...)
 			if err != nil {
 				panic(err)
 			}
@@ -91,33 +145,58 @@ func (e *Explorer) Run() {
 			}
 			defer sol.Close()
 			var infos map[*ssa.Function]*fnInfo
+			var ixc map[*ssa.Function]*Intrinsic
 			for {
 				p, ok := e.pop()
 				if !ok {
 					break
 				}
-				e.runOne(sol, p, &infos)
+				e.runOne(sol, p, &infos, &ixc)
 				e.mu.Lock()
 				e.active--
+				over := (e.cfg.MaxPaths > 0 && e.Paths >= e.cfg.MaxPaths) || (!deadline.IsZero() && time.Now().After(deadline))
 				e.mu.Unlock()
+				if over {
+					e.stop("budget")
+				}
 				e.cond.Broadcast()
 			}
 			e.mu.Lock()
 			e.SolverTime += sol.Time
+			e.SolverStats.Queries += sol.Queries
+			e.SolverStats.Sat += sol.NSat
+			e.SolverStats.Unsat += sol.NUnsat
+			e.SolverStats.Unknown += sol.NUnknown
 			e.mu.Unlock()
 		}()
 	}
 	wg.Wait()
+	e.Wall = time.Since(t0)
+	e.Exhaustive = !e.stopped && len(e.Inconclusive) == 0
 }
 
-func (e *Explorer) runOne(sol *smt.Solver, prefix []Dec, infos *map[*ssa.Function]*fnInfo) {
+func prefixHash(p []Dec, seed int64) uint64 {
+	h := fnv.New64a()
+	fmt.Fprintf(h, "%d:", seed)
+	for _, d := range p {
+		fmt.Fprintf(h, "%d,", d.Val)
+	}
+	return h.Sum64()
+}
+
+func (e *Explorer) runOne(sol *smt.Solver, prefix []Dec, infos *map[*ssa.Function]*fnInfo, ixc *map[*ssa.Function]*Intrinsic) {
 	sol.Reset()
 	ctx := smt.NewCtx()
 	in := NewInterp(e.prog, ctx, sol)
 	if *infos != nil {
 		in.infos = *infos
+		in.ixCache = *ixc
 	}
-	in.Trace = e.Trace
+	in.Trace = e.cfg.Trace
+	in.HarnessName = e.cfg.Name
+	in.Params = e.cfg.Params
+	in.RaceDetect = e.cfg.Race
+	in.Unwind = e.cfg.Unwind
 	in.resetRun()
 	in.P = &PathState{prefix: prefix, spawn: e.push}
 	status := "ok"
@@ -135,17 +214,30 @@ func (e *Explorer) runOne(sol *smt.Solver, prefix []Dec, infos *map[*ssa.Functio
 				}
 			}
 		}()
-		if os.Getenv("GOSX_EXPLORE") != "" {
-			in.PreemptBound = -1
-			if pb := os.Getenv("GOSX_PB"); pb != "" {
-				fmt.Sscan(pb, &in.PreemptBound)
-			}
-			in.RunExplore(e.fn)
+		if e.cfg.Explore {
+			in.PreemptBound = e.cfg.PB
+			in.Explore = true
+			in.RunExplore(e.cfg.Fn)
 		} else {
-			in.Run(e.fn)
+			in.Run(e.cfg.Fn)
 		}
 	}()
 	*infos = in.infos
+	*ixc = in.ixCache
+	// sample passing paths for native cross-validation
+	var sample *ReplayModel
+	var skey uint64
+	if status == "ok" && len(in.Violations) == 0 && e.cfg.MaxSamples > 0 {
+		skey = prefixHash(in.P.taken, e.cfg.Seed)
+		e.mu.Lock()
+		want := len(e.sampleKeys) < e.cfg.MaxSamples || skey < e.sampleKeys[len(e.sampleKeys)-1]
+		e.mu.Unlock()
+		if want {
+			if r, m := sol.Check(nil, true, in.modelVars()); r == smt.Sat {
+				sample = in.BuildReplay(m)
+			}
+		}
+	}
 	e.mu.Lock()
 	defer e.mu.Unlock()
 	e.Paths++
@@ -153,10 +245,31 @@ func (e *Explorer) runOne(sol *smt.Solver, prefix []Dec, infos *map[*ssa.Functio
 	case "abort":
 		e.Aborted++
 	case "inconclusive":
+		if len(why) > 600 {
+			why = why[:600]
+		}
 		e.Inconclusive = append(e.Inconclusive, why)
+	default:
+		e.OKPaths++
+	}
+	s := in.Stats
+	if s.BranchQueries+s.AssertQueries+s.ModelHits > 0 {
+		e.Nontrivial++
+	}
+	if sample != nil {
+		i := sort.Search(len(e.sampleKeys), func(i int) bool { return e.sampleKeys[i] >= skey })
+		e.sampleKeys = append(e.sampleKeys, 0)
+		copy(e.sampleKeys[i+1:], e.sampleKeys[i:])
+		e.sampleKeys[i] = skey
+		e.Samples = append(e.Samples, nil)
+		copy(e.Samples[i+1:], e.Samples[i:])
+		e.Samples[i] = sample
+		if len(e.Samples) > e.cfg.MaxSamples {
+			e.Samples = e.Samples[:e.cfg.MaxSamples]
+			e.sampleKeys = e.sampleKeys[:e.cfg.MaxSamples]
+		}
 	}
 	e.Violations = append(e.Violations, in.Violations...)
-	s := in.Stats
 	e.Total.Instrs += s.Instrs
 	e.Total.Decisions += s.Decisions
 	e.Total.BranchQueries += s.BranchQueries
@@ -167,9 +280,22 @@ func (e *Explorer) runOne(sol *smt.Solver, prefix []Dec, infos *map[*ssa.Functio
 	e.Total.Unknown += s.Unknown
 	e.Total.SchedPoints += s.SchedPoints
 	for f, n := range in.FuncsEntered {
-		e.Funcs[f.String()] += n
+		k := f.String()
+		fi := e.Funcs[k]
+		if fi == nil {
+			ni := 0
+			for _, b := range f.Blocks {
+				ni += len(b.Instrs)
+			}
+			fi = &FuncInfo{Instrs: ni, File: relRepo(e.prog.Fset.Position(f.Pos()).Filename)}
+			e.Funcs[k] = fi
+		}
+		fi.Calls += n
 	}
 	for c := range in.Cover {
 		e.Cover[c] = true
+	}
+	for k, n := range in.StubsHit {
+		e.Stubs[k] += n
 	}
 }
